@@ -55,7 +55,12 @@ def build(ctx, rule):
     # the writer: private emitter helpers inlined (also out of `f(a) + f(b)`), specialised on constant arguments
     from ..core import inline_access_aliases
 
-    g.write_gfa = inline_access_aliases(desugar_ifexp(fold_consts(tail_inlined(repo, hoist_calls(repo, g.write_gfa), keep=lambda c: not c.name.startswith("_") or c.name.startswith("__")))))
+    from ..core import sink_into_branches
+
+    g.write_gfa = tail_inlined(repo, hoist_calls(repo, g.write_gfa), keep=lambda c: not c.name.startswith("_") or c.name.startswith("__"))
+    # a loop over a literal tuple of (side, sign, adjacency set) rows is read as its two iterations; a sign chosen by a
+    # branch and used after it is read inside the branch
+    g.write_gfa = inline_access_aliases(desugar_ifexp(fold_consts(sink_into_branches(unroll_const_loops(g.write_gfa)))))
     for k in ("remove_edge", "remove_node", "add_node", "add_edge"):
         setattr(g, k, unroll_const_loops(tail_inlined(repo, getattr(g, k), keep=lambda c: c.name in ("add_edge", "remove_edge", "add_node", "remove_node") or c.name.startswith(("add_from_", "remove_from_")))))
     return g
